@@ -13,9 +13,9 @@ def candidates (cfg : Cfg) (s : State Val Err) : List (Label Val Err) :=
   [.mSubmit, .mSubmitRaise, .mSdBegin] ++ (List.range n).map .mCancel ++ (List.range n).map .mAwait
   ++ [true, false].flatMap (fun b => [.sdDrainGet b, .sdDrainSkip b, .sdDrainCancel b, .sdDrainDone b,
       .sdDrainEmpty b, .sdPutStop b, .sdJoinThread b, .sdJoinThreadRaise b, .sdJoinQueue b, .sdFinish b])
-  ++ [.rGet, .rDecideReady, .rDecidePark, .rForward, .rFailDep, .rAck, .rBeginSd, .rStopAck, .rJoinExit]
+  ++ [.rGet, .rDecideReady, .rDecidePark, .rForward, .rFailDep, .rFailSet, .rAck, .rBeginSd, .rStopAck, .rJoinExit]
   ++ (List.range s.waitLst.length).flatMap (fun k => [.rScanFwd k, .rScanFail k])
-  ++ [.dGet, .dPrune, .dLaunch, .dAck, .dJoinThread, .dJoinThreadRaise, .dStopAck, .dJoinExit]
+  ++ (List.range s.active.length).map .dPrune ++ [.dGet, .dLaunch, .dAck, .dJoinThread, .dJoinThreadRaise, .dStopAck, .dJoinExit]
   ++ ks.flatMap (fun k => [.wBoot k, .wGet k, .wSrn k, .wSend k, .wFinish k, .wFailA k, .wFailB k,
       .wFailC k, .wProcStop k, .wAck k, .wStopAck k, .wJoinExit k])
 
